@@ -250,13 +250,13 @@ example : trace [.write [1, 2], .keep, .write [2, 3], .keep] 2 = some 0 ∧ trac
 -- a valid, non-empty cache (what tracing package 2 leaves behind) gives the same answer for package 3
 example : (traceC [.write [1, 2], .keep, .write [2, 3], .keep] none 0 3
             (traceC [.write [1, 2], .keep, .write [2, 3], .keep] none 0 2 St.empty).2).1 = some 2 := by decide
--- regression (fix <commit-3>, was: attributed to layer 0): L0 "p2", L1 "p1 p3", L2 "p1 p2", context
+-- regression (fix 32646227, was: attributed to layer 0): L0 "p2", L1 "p1 p3", L2 "p1 p2", context
 -- cancelled after the first re-extraction: package 1 gets no layer details, package 2 (cache hit) is right
 example : populate (fun _ => [.write [2], .write [1, 3], .write [1, 2]]) (some 1) [(0, 1), (0, 2)] St.empty
     = [none, some 2] := by decide
 example : populate (fun _ => [.write [2], .write [1, 3], .write [1, 2]]) none [(0, 1), (0, 2)] St.empty
     = [some 1, some 2] := by decide
--- regression (fix <commit-4>, was: layer 0): the location is replaced by a symlink to another list in
+-- regression (fix ca0187b0, was: layer 0): the location is replaced by a symlink to another list in
 -- layer 1 and restored in layer 2: package 1 is absent from view 1, so it belongs to layer 2
 example : trace [.write [1], .link [2], .write [1]] 1 = some 2 ∧ originSpec [.write [1], .link [2], .write [1]] 1 = some 2 := by decide
 -- inserting an empty layer below / above the origin
